@@ -19,17 +19,20 @@
      AioTarInfo.fromtarfile                Tellable read of one block, classification of the block
                                            (empty / truncated / all zero / bad checksum / header),
                                            extension data read, subsequent header
-     AioTarStream.next                     seek to `offset` if needed; swallows Empty/Truncated/
-                                           Invalid header errors when offset # 0 (reports end of archive)
+     AioTarStream.next                     seek to `offset` if needed; Empty/Truncated/Invalid header
+                                           errors raise ReadError (before the header fix they were
+                                           swallowed when offset # 0: end of archive reported, ~FixHdr)
      member extraction, two call paths of extract_tar_stream:
        path "B"  extractfile + FileStreamReaderWrapper.read loop  (`while content := read(buf)`)
        path "A"  tar.extract -> makefile -> copyfileobj/write     (`while bufsize > 0`), first member only
    Three switches select the design:
      FixSeek   seek loops through TellableStreamWrapper.read and raises at end of stream   (in /repo since 02c607f)
      FixData   write() and FileStreamReaderWrapper.read raise when the stream ends inside data (in /repo since 02c607f)
-     FixHdr    next() raises on an empty / truncated / invalid header after the first member  (PROPOSED, not in /repo)
-   AS CODED = FixSeek /\ FixData /\ ~FixHdr; all FALSE is the reader before 02c607f; all TRUE is the
-   repaired design, for which TLC shows every property below.
+     FixHdr    next() raises on an empty / truncated / invalid header after the first member  (in /repo since the
+               fix "tar stream reader raises on a truncated or corrupted header after the first member ...")
+   AS CODED = all TRUE, for which TLC shows every property below; FixSeek /\ FixData /\ ~FixHdr is the reader
+   before the header fix (MC_TarStream_before_hdr_fix.cfg), all FALSE the reader before 02c607f (both kept for
+   the record, not run by the check).
 
    Properties (the statement of C23):
      TellIsTrue     position reported by tell() = units really consumed
@@ -46,7 +49,7 @@ CONSTANTS B,          \* units per block
           WithCorrupt,\* BOOLEAN: also explore one corrupted member header
           FixSeek,    \* BOOLEAN: seek loops and raises at end of stream
           FixData,    \* BOOLEAN: the end of the stream inside a member's data raises
-          FixHdr      \* BOOLEAN: proposed repair of the swallowed truncated / corrupted header branches of next()
+          FixHdr      \* BOOLEAN: next() raises on a truncated / corrupted header after the first member (no swallowing)
 
 VARIABLES sh, trunc, corrupt, path, buf,     \* the case (never change)
           raw,        \* units really consumed from the raw stream
@@ -238,9 +241,10 @@ Intact      == trunc = Total /\ corrupt = 0
 IntactSucceeds == (Intact /\ pc \in Terminal) => pc = "done"       \* a complete, valid stream is accepted
 \* every wrong outcome is explained by one of the recorded branches
 DefectsExplained == (pc = "hang" \/ (pc = "done" /\ ~Exact)) => causes # {}
-\* as coded (FixSeek /\ FixData /\ ~FixHdr): an intact stream is reproduced exactly for every chunking, and the only
-\* wrong outcome left is a swallowed header error on a truncated or corrupted stream
+\* an intact stream is reproduced exactly for every chunking
 IntactExact == (Intact /\ pc \in Terminal) => (pc = "done" /\ Exact)
+\* before the header fix (FixSeek /\ FixData /\ ~FixHdr): the only wrong outcome left was a swallowed header error on a
+\* truncated or corrupted stream
 OnlyHeaderSwallowingLeft == (pc = "done" /\ ~Exact) =>
                                /\ ~Intact
                                /\ causes \cap {"empty-header", "truncated-header", "invalid-header"} # {}
